@@ -534,9 +534,9 @@ class Interp:
                 return [(i, x) for i, x in enumerate(args[0])]
             if n in ('int',) and len(args) == 1 and isinstance(args[0], (int, float)):
                 return int(args[0])
-            if n == 'list' and len(args) <= 1:
+            if n == 'list' and (not args or isinstance(args[0], (list, tuple, range))):
                 return TList(args[0]) if args else TList()
-            if n == 'tuple' and len(args) == 1:
+            if n == 'tuple' and len(args) == 1 and isinstance(args[0], (list, tuple, range)):
                 return tuple(args[0])
             if n in ('max', 'min') and args and all(isinstance(a, int) for a in args):
                 return max(args) if n == 'max' else min(args)
@@ -544,6 +544,18 @@ class Interp:
                 return sum(args[0], *args[1:])
             if n == 'abs' and len(args) == 1 and isinstance(args[0], int):
                 return abs(args[0])
+            if n == 'next' and len(args) in (1, 2) and isinstance(args[0], (list, tuple)):
+                if args[0]:
+                    return args[0][0]
+                if len(args) == 2:
+                    return args[1]
+                raise Raised('StopIteration', e)
+            if n == 'any' and len(args) == 1 and isinstance(args[0], (list, tuple)):
+                return any(self.truth(x) for x in args[0])
+            if n == 'all' and len(args) == 1 and isinstance(args[0], (list, tuple)):
+                return all(self.truth(x) for x in args[0])
+            if n == 'sorted' and len(args) == 1 and isinstance(args[0], (list, tuple)) and all(isinstance(x, int) for x in args[0]):
+                return TList(sorted(args[0]))
             if n == 'divmod' and len(args) == 2 and all(isinstance(a, int) for a in args) and args[1] != 0:
                 return divmod(args[0], args[1])
             if n == 'bool' and len(args) == 1:
@@ -588,6 +600,9 @@ class Interp:
                     raise Raised('ValueError', e)
                 raise Unknown(f'call of `{norm(fn)[:40]}`')
             if isinstance(o, Sym):
+                stub = getattr(self, 'ext_stubs', {}).get(f'{o.name}.{fn.attr}')
+                if stub is not None:
+                    return stub(args, kwargs)
                 return derived_call(f'{o.name}.{fn.attr}', args, kwargs)
             raise Unknown(f'method call `{norm(fn)[:40]}`')
         v = self.ev(fn, env, mod, func, depth)
@@ -607,6 +622,9 @@ class Interp:
         if isinstance(v, tuple) and v and v[0] == 'bound':
             return self.call(v[1], args, kwargs, selfobj=v[2], depth=depth + 1)
         if isinstance(v, Sym):
+            stub = getattr(self, 'ext_stubs', {}).get(v.name)
+            if stub is not None:
+                return stub(args, kwargs)
             return derived_call(v.name, args, kwargs)
         raise Unknown(f'call `{norm(fn)[:40]}`')
 
